@@ -3,7 +3,7 @@
 set -u
 P=$1; shift
 cd /repo && git apply "$P" || { echo "patch does not apply to /repo"; exit 2; }
-trap 'git -C /repo checkout -q -- . ; git -C /repo clean -fdq' EXIT
+trap 'git -C /repo checkout -q -- . ; git -C /repo clean -fdq; git -C /verif checkout -q -- evidence 2>/dev/null; (cd /repo && GOFLAGS=-mod=mod GOPROXY=off go build -o /verif/.cache/bin/gogreement ./cmd/gogreement 2>/dev/null)' EXIT
 cd /verif
 for id in "$@"; do
   ./check "$id" --tier "${TIER:-quick}" 2>/dev/null | grep -E "^(VIOLATION|OK|FAIL|KNOWN)" | head -4
